@@ -3,6 +3,7 @@ package props
 import (
 	"fmt"
 	"math"
+	"runtime"
 
 	"gopkg.in/typ.v4/slices"
 	"verifharness/internal/core"
@@ -42,6 +43,18 @@ func runC13(c *core.Ctx) {
 			}
 			if !hugeChunks(c) {
 				return
+			}
+			// the same big input under other processor settings (1 < GOMAXPROCS < NumCPU
+			// included): work that is split by one number and started by another
+			old := runtime.GOMAXPROCS(0)
+			for _, procs := range []int{1, 2, 3, runtime.NumCPU()/2 + 1, 2 * runtime.NumCPU()} {
+				runtime.GOMAXPROCS(procs)
+				ok := partCheck(c, big, 1) && partCheck(c, big, 2) && partCheck(c, 40000, 1)
+				runtime.GOMAXPROCS(old)
+				if !ok {
+					return
+				}
+				c.Count("big_inputs_under_other_GOMAXPROCS", 1)
 			}
 			c.Count("big_inputs_checked", 1)
 		}
@@ -91,6 +104,44 @@ func runC13(c *core.Ctx) {
 		}
 	}
 	c.NonTrivial(core.Mix(14, c.Seed))
+}
+
+// c13nested runs the three callback variants on a small second slice and reports
+// whether they behaved; used from inside callbacks of an outer call (a helper that
+// keeps scratch state between calls mixes the two up).
+func c13nested(n, size int) string {
+	in := make([]int, n)
+	for i := range in {
+		in[i] = 70000 + i
+	}
+	var cat []int
+	pieces := 0
+	slices.ChunkFunc(in, size, func(ch []int) { cat = append(cat, ch...); pieces++ })
+	if !eqSlice(cat, in) || pieces != (n+size-1)/size {
+		return fmt.Sprintf("a nested ChunkFunc over %d elements by %d saw %d pieces / wrong contents", n, size, pieces)
+	}
+	w := 0
+	bad := false
+	slices.WindowedFunc(in, size, func(win []int) {
+		if len(win) != size || win[0] != 70000+w {
+			bad = true
+		}
+		w++
+	})
+	if wantW := n - size + 1; bad || (wantW > 0 && w != wantW) || (wantW <= 0 && w != 0) {
+		return fmt.Sprintf("a nested WindowedFunc over %d elements by %d saw %d windows (bad=%v)", n, size, w, bad)
+	}
+	np := 0
+	slices.PairsFunc(in, func(a, b int) {
+		if a != 70000+np || b != a+1 {
+			bad = true
+		}
+		np++
+	})
+	if bad || (n > 0 && np != n-1) || (n == 0 && np != 0) {
+		return fmt.Sprintf("a nested PairsFunc over %d elements made %d calls (bad=%v)", n, np, bad)
+	}
+	return ""
 }
 
 func partCheck(c *core.Ctx, n, size int) bool {
@@ -154,8 +205,25 @@ func partCheck(c *core.Ctx, n, size int) bool {
 		return fail("Chunk:concatenation", "concatenation of chunks differs from the input")
 	}
 	var cb [][]int
-	if p, pv := core.Catch(func() { slices.ChunkFunc(in, size, func(ch []int) { cb = append(cb, append([]int(nil), ch...)) }) }); p {
+	// one callback in four also calls the helpers itself, on another slice
+	r := c.R
+	nestAt, nestMsg := -1, ""
+	if r.Chance(1, 4) {
+		nestAt = r.Intn(len(want) + 1)
+	}
+	nest := func(k int) {
+		if k == nestAt && nestMsg == "" {
+			nestMsg = c13nested(r.Intn(40), r.Range(1, 9))
+			c.Count("nested_calls_in_callbacks", 1)
+		}
+	}
+	if p, pv := core.Catch(func() {
+		slices.ChunkFunc(in, size, func(ch []int) { nest(len(cb)); cb = append(cb, append([]int(nil), ch...)) })
+	}); p {
 		return fail("ChunkFunc:panic", fmt.Sprintf("ChunkFunc panicked: %v", pv))
+	}
+	if nestMsg != "" {
+		return fail("ChunkFunc:nested-call", "inside a ChunkFunc callback: "+nestMsg)
 	}
 	if !eq2D(cb, want) {
 		return fail("ChunkFunc:sequence", fmt.Sprintf("ChunkFunc callback saw %d pieces (lengths %v), expected %d", len(cb), pieceLens(cb), len(want)))
@@ -174,9 +242,12 @@ func partCheck(c *core.Ctx, n, size int) bool {
 	}
 	cb = nil
 	if p, pv := core.Catch(func() {
-		slices.WindowedFunc(in, size, func(w []int) { cb = append(cb, append([]int(nil), w...)) })
+		slices.WindowedFunc(in, size, func(w []int) { nest(len(cb)); cb = append(cb, append([]int(nil), w...)) })
 	}); p {
 		return fail("WindowedFunc:panic", fmt.Sprintf("WindowedFunc panicked: %v", pv))
+	}
+	if nestMsg != "" {
+		return fail("WindowedFunc:nested-call", "inside a WindowedFunc callback: "+nestMsg)
 	}
 	if !eq2D(cb, want) {
 		return fail("WindowedFunc:sequence", fmt.Sprintf("WindowedFunc callback saw %d windows, expected %d", len(cb), len(want)))
@@ -195,8 +266,13 @@ func partCheck(c *core.Ctx, n, size int) bool {
 			return fail("Pairs:pairs", fmt.Sprintf("Pairs returned %d pairs, expected %d", len(gp), len(wp)))
 		}
 		var cp [][2]int
-		if p, pv := core.Catch(func() { slices.PairsFunc(in, func(a, b int) { cp = append(cp, [2]int{a, b}) }) }); p {
+		if p, pv := core.Catch(func() {
+			slices.PairsFunc(in, func(a, b int) { nest(len(cp)); cp = append(cp, [2]int{a, b}) })
+		}); p {
 			return fail("PairsFunc:panic", fmt.Sprintf("PairsFunc panicked: %v", pv))
+		}
+		if nestMsg != "" {
+			return fail("PairsFunc:nested-call", "inside a PairsFunc callback: "+nestMsg)
 		}
 		if !eqSlice(cp, wp) {
 			return fail("PairsFunc:sequence", fmt.Sprintf("PairsFunc callback saw %d pairs, expected %d", len(cp), len(wp)))
@@ -237,7 +313,35 @@ func eq2D(a, b [][]int) bool {
 // and lengths are judged; sizes are chosen so that few pieces result.
 func hugeChunks(c *core.Ctx) bool {
 	type z = struct{}
-	cases := [][2]int{{1<<53 + 1, 1 << 52}, {1<<53 + 3, 1<<52 + 1}, {1<<62 + 5, 1 << 61}, {1<<55 + 1, 1 << 55}, {1 << 60, math.MaxInt}}
+	cases := [][2]int{{1<<53 + 1, 1 << 52}, {1<<53 + 3, 1<<52 + 1}, {1<<62 + 5, 1 << 61}, {1<<55 + 1, 1 << 55}, {1 << 60, math.MaxInt},
+		{math.MaxInt, math.MaxInt}, {math.MaxInt, math.MaxInt - 2}, {math.MaxInt, math.MaxInt/2 + 1}, {math.MaxInt - 1, math.MaxInt}, {math.MaxInt, 1 << 61}}
+	// Windowed / WindowedFunc at the largest possible lengths: few windows, huge sizes
+	for _, cs := range [][2]int{{math.MaxInt, math.MaxInt}, {math.MaxInt, math.MaxInt - 3}, {math.MaxInt - 1, math.MaxInt - 2}, {math.MaxInt - 1, math.MaxInt}, {1 << 62, 1<<62 - 2}} {
+		n, size := cs[0], cs[1]
+		in := make([]z, n)
+		want := n - size + 1
+		if want < 0 {
+			want = 0
+		}
+		calls, badLen := 0, false
+		var got [][]z
+		if p, pv := core.Catch(func() {
+			slices.WindowedFunc(in, size, func(w []z) {
+				calls++
+				if len(w) != size {
+					badLen = true
+				}
+			})
+			got = slices.Windowed(in, size)
+		}); p {
+			c.Violate("WindowedFunc:panic[huge]", fmt.Sprintf("Windowed/WindowedFunc of %d zero-size elements by %d panicked after %d callback calls: %v", n, size, calls, pv), nil)
+			return false
+		}
+		if calls != want || badLen || len(got) != want {
+			c.Violate("WindowedFunc:sequence[huge]", fmt.Sprintf("WindowedFunc of %d zero-size elements by %d made %d calls (wrong length: %v), Windowed returned %d windows, expected %d", n, size, calls, badLen, len(got), want), nil)
+			return false
+		}
+	}
 	for _, cs := range cases {
 		n, size := cs[0], cs[1]
 		in := make([]z, n)
